@@ -161,3 +161,246 @@ fn c04_profile_table() {
         SrtpProfile::AeadAes128Gcm => assert!(t == 16 && s == 12 && k == 16 && a == 0),
     }
 }
+
+// ================================================================ C05
+/// well_formed(ctx): the authentication material every contract below requires. Without it
+/// `unprotect` would silently skip authentication (`if let Some(proto)`).
+pub(crate) fn well_formed(c: &SrtpContext) -> bool {
+    match c._profile {
+        SrtpProfile::AeadAes128Gcm => c.rtp_gcm_cipher.is_some() && c.rtcp_gcm_cipher.is_some()
+            && c.rtp_keys.salt.len() >= 12 && c.rtcp_keys.salt.len() >= 12,
+        _ => c.rtp_auth_prototype.is_some() && c.rtcp_auth_prototype.is_some()
+            && c.rtp_keys.salt.len() >= 14 && c.rtcp_keys.salt.len() >= 14,
+    }
+}
+fn ctx_hmac(profile: SrtpProfile, ak_rtp: &[u8], ak_rtcp: &[u8]) -> SrtpContext {
+    let mut c = lit_ctx(profile);
+    c.rtp_auth_prototype = Some(<HmacSha1 as hmac::digest::KeyInit>::new_from_slice(ak_rtp).unwrap());
+    c.rtcp_auth_prototype = Some(<HmacSha1 as hmac::digest::KeyInit>::new_from_slice(ak_rtcp).unwrap());
+    c
+}
+fn ctx_gcm(k_rtp: &[u8; 16], k_rtcp: &[u8; 16]) -> SrtpContext {
+    let mut c = lit_ctx(SrtpProfile::AeadAes128Gcm);
+    c.rtp_gcm_cipher = Some(Aes128Gcm::new_from_slice(k_rtp).unwrap());
+    c.rtcp_gcm_cipher = Some(Aes128Gcm::new_from_slice(k_rtcp).unwrap());
+    c
+}
+type CryptoState = (u32, Option<u16>, u32);
+fn crypto_state(c: &SrtpContext) -> CryptoState { (c.rollover_counter, c.last_sequence, c.rtcp_index) }
+
+/// constant_time_eq(a, b) == (a == b) for every pair of slices up to SHA1_LEN bytes
+#[kani::proof]
+#[kani::unwind(22)]
+fn c05_constant_time_eq_spec() {
+    let a: [u8; 20] = kani::any();
+    let b: [u8; 20] = kani::any();
+    let (la, lb): (usize, usize) = (kani::any(), kani::any());
+    kani::assume(la <= 20 && lb <= 20);
+    kani::cover!(la == lb && la == 20 && a == b);
+    kani::cover!(la == lb && la == 10 && a[..10] == b[..10] && a != b);
+    assert!(constant_time_eq(&a[..la], &b[..lb]) == (a[..la] == b[..lb]));
+}
+
+// ---- SRTCP, HMAC profiles: Err => crypto state unchanged; Ok => tag is the MAC of ALL preceding bytes
+fn srtcp_hmac_obligation<const N: usize>(profile: SrtpProfile, ak: [u8; 20]) {
+    let mut c = ctx_hmac(profile, &ak, &ak);
+    kani::assume(well_formed(&c));
+    let tag_len = profile.tag_len();
+    let old = crypto_state(&c);
+    let raw: [u8; N] = kani::any();
+    let mut p = raw.to_vec();
+    let r = c.unprotect_rtcp(&mut p);
+    match r {
+        Err(_) => assert!(crypto_state(&c) == old),
+        Ok(()) => {
+            // recompute the MAC with the public API over every byte before the tag (incl. the index word)
+            let mut mac = <HmacSha1 as hmac::digest::KeyInit>::new_from_slice(&ak).unwrap();
+            mac.update(&raw[..N - tag_len]);
+            let t = mac.finalize().into_bytes();
+            assert!(t[..tag_len] == raw[N - tag_len..]);
+            assert!(p.len() == N - tag_len - 4);
+            // only the SRTCP index may move, and only to the authenticated value
+            let idx = u32::from_be_bytes([raw[N - tag_len - 4], raw[N - tag_len - 3], raw[N - tag_len - 2], raw[N - tag_len - 1]]) & 0x7FFF_FFFF;
+            assert!(c.rollover_counter == old.0 && c.last_sequence == old.1);
+            assert!(c.rtcp_index == if idx > old.2 { idx } else { old.2 });
+            kani::cover!(true);
+        }
+    }
+}
+#[kani::proof]
+#[kani::unwind(30)]
+fn c05_unprotect_rtcp_hmac80_22_fixedkey() {
+    srtcp_hmac_obligation::<22>(SrtpProfile::NullCipherHmac, [0x5a; 20]);
+}
+#[kani::proof]
+#[kani::unwind(30)]
+fn c05_unprotect_rtcp_hmac80_26_anykey() {
+    srtcp_hmac_obligation::<26>(SrtpProfile::NullCipherHmac, kani::any());
+}
+/// every input too short to hold index+tag is rejected without touching state;
+/// one harness per (profile, concrete length): symbolic lengths/profiles explode CBMC's memory
+fn srtcp_short_obligation<const N: usize>(p: SrtpProfile) {
+    assert!(N < p.tag_len() + 4);
+    let mut c = lit_ctx(p);
+    let old = crypto_state(&c);
+    let raw: [u8; N] = kani::any();
+    let mut v = raw.to_vec();
+    assert!(matches!(c.unprotect_rtcp(&mut v), Err(SrtpError::PacketTooShort)));
+    assert!(crypto_state(&c) == old);
+}
+#[kani::proof]
+#[kani::unwind(24)]
+fn c05_unprotect_rtcp_short_null_0() { srtcp_short_obligation::<0>(SrtpProfile::NullCipherHmac); }
+#[kani::proof]
+#[kani::unwind(24)]
+fn c05_unprotect_rtcp_short_sha32_7() { srtcp_short_obligation::<7>(SrtpProfile::Aes128Sha1_32); }
+#[kani::proof]
+#[kani::unwind(24)]
+fn c05_unprotect_rtcp_short_sha80_13() { srtcp_short_obligation::<13>(SrtpProfile::Aes128Sha1_80); }
+#[kani::proof]
+#[kani::unwind(24)]
+fn c05_unprotect_rtcp_short_gcm_19() { srtcp_short_obligation::<19>(SrtpProfile::AeadAes128Gcm); }
+
+// ---- SRTCP, GCM: Err => crypto state unchanged (index only advances on an authenticated packet)
+fn srtcp_gcm_obligation<const N: usize>() {
+    let key: [u8; 16] = [7; 16];
+    let mut c = ctx_gcm(&key, &key);
+    kani::assume(well_formed(&c));
+    let old = crypto_state(&c);
+    let raw: [u8; N] = kani::any();
+    let mut p = raw.to_vec();
+    let r = c.unprotect_rtcp(&mut p);
+    match r {
+        Err(_) => assert!(crypto_state(&c) == old),
+        Ok(()) => {
+            // authenticated under AAD = header(8) || index word, nonce = RFC 7714 9.1
+            let iw = [raw[N - 4], raw[N - 3], raw[N - 2], raw[N - 1]];
+            let idx = u32::from_be_bytes(iw) & 0x7FFF_FFFF;
+            let mut aad = raw[..8].to_vec();
+            aad.extend_from_slice(&iw);
+            let nonce = spec_iv_gcm_rtcp(&c.rtcp_keys.salt, c.ssrc, idx);
+            let ciph = Aes128Gcm::new_from_slice(&key).unwrap();
+            let mut ct = raw[8..N - 20].to_vec();
+            let tag = aes_gcm::Tag::clone_from_slice(&raw[N - 20..N - 4]);
+            assert!(ciph.decrypt_in_place_detached(Nonce::from_slice(&nonce), &aad, &mut ct, &tag).is_ok());
+            assert!(p.len() == N - 20 && p[..8] == raw[..8] && p[8..] == ct[..]);
+            assert!(c.rollover_counter == old.0 && c.last_sequence == old.1);
+            assert!(c.rtcp_index == if idx > old.2 { idx } else { old.2 });
+            kani::cover!(true);
+        }
+    }
+}
+#[kani::proof]
+#[kani::unwind(40)]
+fn c05_unprotect_rtcp_gcm_32() {
+    srtcp_gcm_obligation::<32>();
+}
+
+// ---- SRTP (RTP), HMAC profiles
+fn srtp_hmac_obligation<const B: usize>(profile: SrtpProfile, ak: [u8; 20]) {
+    let mut c = ctx_hmac(profile, &ak, &ak);
+    kani::assume(well_formed(&c));
+    let tag_len = profile.tag_len();
+    let old = crypto_state(&c);
+    let body: [u8; B] = kani::any();
+    let mut h = RtpHeader::new(kani::any::<u8>() & 0x7f, kani::any(), kani::any(), kani::any());
+    h.marker = kani::any();
+    let seq = h.sequence_number;
+    let mut hdr = [0u8; 12];
+    h.write_to(false, &mut hdr[..]);
+    let sp = SrtpPacket { header: h, body: BytesMut::from(&body[..]), has_padding: false };
+    let roc = post_estimate_roc_value(old.0, old.1, seq);
+    let r = c.unprotect(sp);
+    match r {
+        Err(_) => assert!(crypto_state(&c) == old),
+        Ok(pkt) => {
+            let mut mac = <HmacSha1 as hmac::digest::KeyInit>::new_from_slice(&ak).unwrap();
+            mac.update(&hdr);
+            mac.update(&body[..B - tag_len]);
+            mac.update(&roc.to_be_bytes());
+            let t = mac.finalize().into_bytes();
+            assert!(t[..tag_len] == body[B - tag_len..]);
+            assert!(pkt.payload.len() == B - tag_len && pkt.padding_len == 0);
+            assert!(pkt.header.sequence_number == seq);
+            assert!(post_update(old.0, old.1, seq, roc, c.rollover_counter, c.last_sequence) && c.rtcp_index == old.2);
+            kani::cover!(true);
+            core::mem::forget(pkt);
+        }
+    }
+}
+/// the value post_estimate_roc determines (RFC 3711 3.3.1), used to state "MAC covers the ROC"
+pub(crate) fn post_estimate_roc_value(roc: u32, last: Option<u16>, seq: u16) -> u32 {
+    match last {
+        None => roc,
+        Some(l) => { let d = seq as i64 - l as i64; if d < -32768 { roc.wrapping_add(1) } else if d > 32768 { roc.wrapping_sub(1) } else { roc } }
+    }
+}
+#[kani::proof]
+#[kani::unwind(30)]
+fn c05_unprotect_hmac80_body10_fixedkey() {
+    srtp_hmac_obligation::<10>(SrtpProfile::NullCipherHmac, [0x5a; 20]);
+}
+#[kani::proof]
+#[kani::unwind(30)]
+fn c05_unprotect_hmac80_body14_anykey() {
+    srtp_hmac_obligation::<14>(SrtpProfile::NullCipherHmac, kani::any());
+}
+/// a body shorter than the tag is rejected without touching state, per (profile, concrete length)
+fn srtp_short_obligation<const N: usize>(p: SrtpProfile) {
+    assert!(N < p.tag_len());
+    let mut c = lit_ctx(p);
+    let old = crypto_state(&c);
+    let body: [u8; N] = kani::any();
+    let h = RtpHeader::new(96, kani::any(), kani::any(), kani::any());
+    let sp = SrtpPacket { header: h, body: BytesMut::from(&body[..]), has_padding: kani::any() };
+    assert!(matches!(c.unprotect(sp), Err(SrtpError::PacketTooShort)));
+    assert!(crypto_state(&c) == old);
+}
+#[kani::proof]
+#[kani::unwind(20)]
+fn c05_unprotect_short_null_0() { srtp_short_obligation::<0>(SrtpProfile::NullCipherHmac); }
+#[kani::proof]
+#[kani::unwind(20)]
+fn c05_unprotect_short_sha32_3() { srtp_short_obligation::<3>(SrtpProfile::Aes128Sha1_32); }
+#[kani::proof]
+#[kani::unwind(20)]
+fn c05_unprotect_short_sha80_9() { srtp_short_obligation::<9>(SrtpProfile::Aes128Sha1_80); }
+#[kani::proof]
+#[kani::unwind(20)]
+fn c05_unprotect_short_gcm_15() { srtp_short_obligation::<15>(SrtpProfile::AeadAes128Gcm); }
+
+// ---- SRTP (RTP), GCM
+fn srtp_gcm_obligation<const B: usize>() {
+    let key: [u8; 16] = [7; 16];
+    let mut c = ctx_gcm(&key, &key);
+    kani::assume(well_formed(&c));
+    let old = crypto_state(&c);
+    let body: [u8; B] = kani::any();
+    let mut h = RtpHeader::new(kani::any::<u8>() & 0x7f, kani::any(), kani::any(), kani::any());
+    h.marker = kani::any();
+    let seq = h.sequence_number;
+    let mut hdr = [0u8; 12];
+    h.write_to(false, &mut hdr[..]);
+    let sp = SrtpPacket { header: h, body: BytesMut::from(&body[..]), has_padding: false };
+    let roc = post_estimate_roc_value(old.0, old.1, seq);
+    let r = c.unprotect(sp);
+    match r {
+        Err(_) => assert!(crypto_state(&c) == old),
+        Ok(pkt) => {
+            let nonce = spec_iv_gcm_rtp(&c.rtp_keys.salt, c.ssrc, roc, seq);
+            let ciph = Aes128Gcm::new_from_slice(&key).unwrap();
+            let mut ct = body[..B - 16].to_vec();
+            let tag = aes_gcm::Tag::clone_from_slice(&body[B - 16..]);
+            assert!(ciph.decrypt_in_place_detached(Nonce::from_slice(&nonce), &hdr, &mut ct, &tag).is_ok());
+            assert!(pkt.payload[..] == ct[..]);
+            assert!(post_update(old.0, old.1, seq, roc, c.rollover_counter, c.last_sequence) && c.rtcp_index == old.2);
+            kani::cover!(true);
+            core::mem::forget(pkt);
+        }
+    }
+}
+#[kani::proof]
+#[kani::unwind(40)]
+fn c05_unprotect_gcm_body18() {
+    srtp_gcm_obligation::<18>();
+}
